@@ -228,12 +228,16 @@ CHECKS = {
                  "pruning threshold 10 occur; or the std world at height 18 plus 0-3 blocks; blocks of 0-5 transfers / Store "
                  "calls / failing calls / IBTPs) and a crash block h plus 1-2 continuation blocks. The durable writes of the commit "
                  "of h are: state batch, journal-prune batch (h>10), chain-index batch, and data+index append of each of the five "
-                 "blockfile tables in order. For every (history, h) ALL prefix combinations of the three concurrent write "
-                 "sequences are enumerated (3x2x11=66 crash images, 44 without pruning), composed from copies of the directory "
-                 "before/after the block and a run whose state store drops the second batch. Oracle per image: node opens; head in "
+                 "blockfile tables in order; blocks also contain scripts, transfers to contract addresses, WASM deployment and "
+                 "invocation, and up to 130 transactions. For every (history, h) ALL prefix combinations of the three write "
+                 "sequences (state store, chain index store, block file) are enumerated, composed from copies of the directory "
+                 "before/after the block and runs whose stores drop the later writes; images with index writes but an incomplete "
+                 "block file are ruled out only when a hook on the index store's first durable write saw the block file complete "
+                 "in every run of that block (observed program order, not assumed). Oracle per image: node opens; head in "
                  "{h-1,h}; every block and interchain meta up to head readable; state version == head; raw state dump == the "
                  "uncrashed node's dump at head; head block's state root == current journal root; block store and index agree; "
-                 "executing the remaining blocks reproduces the uncrashed node's block hashes. Non-trivial = image that is neither "
+                 "no transaction meta or receipt of a lost block is readable; executing the remaining blocks reproduces the "
+                 "uncrashed node's block hashes. Non-trivial = image that is neither "
                  "all-old nor all-new; distinct = (history, h, image)."),
         "assumptions": ["a process death leaves a prefix of each sequential write sequence; arbitrary subsets (power loss without fsync) are not enumerated",
                         "one leveldb batch and one file append are atomic units"],
